@@ -25,18 +25,25 @@ def main():
     ov = overlay_from_patch(patch)
     base = {}
     out = {}
+    und = []
     from vsa.__main__ import parse_tree
     r0, r1 = parse_tree(), parse_tree(overlay=ov)
     for p in props:
         b = run_check(p, 'quick', write=False, quiet=True, repo=r0)
         c = run_check(p, 'quick', write=False, quiet=True, repo=r1)
         bk = {v.key() for v in b.violations}
-        new = [v for v in c.violations if v.key() not in bk]
+        # what the command would print as VIOLATION: unlisted violations
+        # that survive the restructuring gate
+        new = [v for v in (c.unlisted if c.status != 2 else [])
+               if v.key() not in bk]
         if c.status == 2:
-            print(p, 'ANALYSIS-ERROR', c.error)
+            print(p, 'ANALYSIS-ERROR', (c.error or '')[:300])
+            und.append(p)
         for v in new:
             print(p, v.rule, v.function, '|', v.message[:150])
-        out[p] = bool(new) or c.status == 2
+        out[p] = bool(new)
+    if und:
+        print('UNDECIDED (exit 2):', und)
     print('FIRED:', [p for p, f in out.items() if f] or 'none')
 
 
